@@ -29,7 +29,10 @@ import (
 // reaches the block's state root (no effect leaks from one transaction into another).
 func (e *env) labC03(parent, blk *types.Block, rcpts *types.Receipts, before map[string]*simnode.AcctDump) {
 	x := e.x
-	v := e.vals[0]
+	// The lab runs on the producer's node: its store holds the parent state and the produced
+	// block's state even when validators refuse the block (which is what a skipped transaction
+	// that left an effect leads to).
+	v := e.prod
 	store := v.Disk.Store("state")
 	txs := blk.GetBody().GetTxs()
 	var rs []*types.Receipt
@@ -203,6 +206,7 @@ func (e *env) labC03(parent, blk *types.Block, rcpts *types.Receipts, before map
 		if err := bs.Update(); err != nil {
 			panic(err)
 		}
+		x.Logf("lab: block %d sequential root equal=%v", blk.BlockNo(), bytes.Equal(bs.GetRoot(), blk.GetHeader().GetBlocksRootHash()))
 		if !bytes.Equal(bs.GetRoot(), blk.GetHeader().GetBlocksRootHash()) {
 			_ = bs.Commit()
 			cur, _ := simnode.WalkState(store, bs.GetRoot(), true)
